@@ -8,6 +8,9 @@ use std::cell::RefCell;
 #[derive(Default)]
 pub struct Script { pub pattern: Vec<u8>, pub pos: usize, pub fail_at: Option<usize>, pub once: bool, pub requests: Vec<(usize, bool)>, pub handed: Vec<u8>, pub active: bool }
 thread_local! { pub static SCRIPT: RefCell<Script> = RefCell::new(Script::default()); }
+/// every byte a scripted source handed out in this process, in request order (an implementation that buffers entropy per
+/// thread or per process may serve a generation from bytes it fetched during an earlier case)
+pub static ALL_HANDED: std::sync::Mutex<Vec<u8>> = std::sync::Mutex::new(Vec::new());
 
 extern "C" { fn __errno_location() -> *mut i32; }
 /// # Safety: called by the subject through its FFI declaration with a valid buffer
@@ -22,7 +25,9 @@ pub unsafe extern "C" fn getentropy(buf: *mut u8, len: usize) -> i32 {
         let fail = s.fail_at.map_or(false, |f| if s.once { k == f } else { k >= f });
         s.requests.push((len, !fail));
         if fail { *__errno_location() = 5; return -1; } // EIO
+        let from = s.handed.len();
         for i in 0..len { let v = if s.pattern.is_empty() { 0 } else { s.pattern[s.pos % s.pattern.len()] }; s.pos += 1; *buf.add(i) = v; s.handed.push(v); }
+        if let Ok(mut all) = ALL_HANDED.lock() { if all.len() < (64 << 20) { all.extend_from_slice(&s.handed[from..]); } }
         0
     })
 }
@@ -36,6 +41,10 @@ pub unsafe extern "C" fn getrandom(buf: *mut u8, len: usize, flags: u32) -> isiz
     if getentropy(buf, len) == 0 { len as isize } else { -1 }
 }
 /// runs `f` with the scripted source; returns its result, the requests made (length, answered?) and the bytes handed out
+/// like `with_script`, on a thread of its own: thread-local state of the implementation starts fresh for every case
+pub fn with_script_on_fresh_thread<T: Send>(pattern: Vec<u8>, fail_at: Option<usize>, once: bool, f: impl FnOnce() -> T + Send) -> (T, Vec<(usize, bool)>, Vec<u8>) {
+    std::thread::scope(|sc| std::thread::Builder::new().stack_size(16 << 20).spawn_scoped(sc, move || with_script(pattern, fail_at, once, f)).expect("spawn").join().expect("the case thread died"))
+}
 pub fn with_script<T>(pattern: Vec<u8>, fail_at: Option<usize>, once: bool, f: impl FnOnce() -> T) -> (T, Vec<(usize, bool)>, Vec<u8>) {
     SCRIPT.with(|s| *s.borrow_mut() = Script { pattern, pos: 0, fail_at, once, requests: vec![], handed: vec![], active: true });
     let r = f();
